@@ -71,7 +71,7 @@ Ev &sim_event(const char *kind, const std::string &s) {
 }
 void sim_step() {
     G.steps++; G.w.clock_us += G.w.clock_step_us;
-    if (t_op && t_op->obs) t_op->obs->steps++;
+    if (t_op && t_op->obs) { t_op->obs->steps++; if (t_op->after_exec) t_op->obs->steps_after_exec++; }
     if (G.steps > G.step_cap) sim_abort("hang", "step cap exceeded (" + std::to_string(G.step_cap) + " intercepted calls)");
 }
 bool sim_fault(const char *kind, Fault &out) {
@@ -419,8 +419,8 @@ static void ht_remove(const volatile void *p) {
         if (g_ht[i].p == p) { g_ht[i].p = (void *)1; g_live_allocs--; g_live_bytes -= (long)g_ht[i].n; return; }
     }
 }
-static void hook_malloc(const volatile void *p, size_t n) { if (g_hooks_on && t_in_sut && !t_in_sim && p) ht_insert(p, n); }
-static void hook_free(const volatile void *p) { if (g_hooks_on && p && g_live_allocs) ht_remove(p); }
+static void hook_malloc(const volatile void *p, size_t n) { if (g_hooks_on && t_in_sut && !t_in_sim && p) { ht_insert(p, n); if (t_op && t_op->after_exec && t_op->obs) t_op->obs->heap_ops_after_exec++; } }
+static void hook_free(const volatile void *p) { if (g_hooks_on && p && t_in_sut && !t_in_sim && t_op && t_op->after_exec && t_op->obs) t_op->obs->heap_ops_after_exec++; if (g_hooks_on && p && g_live_allocs) ht_remove(p); }
 void heap_reset() { memset(g_ht, 0, sizeof g_ht); g_live_allocs = g_live_bytes = 0; }
 void heap_counts(long &a, long &b) { a = g_live_allocs; b = g_live_bytes; }
 
@@ -545,6 +545,7 @@ extern "C" __attribute__((visibility("default"))) int sim_exec_cb(int api, const
     }
     if (st->op->success && st->jmp_armed) { t_in_sim = 0; longjmp(st->exec_jmp, 1); }
     t_in_sut = was;
+    st->after_exec = true;
     int r = st->op->ret, e = st->op->err;
     // SimScope destructor runs at return; set errno last
     errno = e;
